@@ -48,12 +48,16 @@ class After(Condition):
         return Before(self.date)
 
     def _ensure_trigger(self):
-        if not self._scheduled:
-            self._scheduled = True
-            __USIM_STATE__.loop.schedule(self._async_trigger(), at=self.date)
+        # The trigger lives in the event loop it was scheduled in: a condition that
+        # outlives a simulation must be scheduled again in the next one.
+        loop = __USIM_STATE__.loop
+        if self._scheduled is not loop:
+            self._scheduled = loop
+            loop.schedule(self._async_trigger(), at=self.date)
 
     # we cannot schedule __trigger__ directly, since it is not async
     async def _async_trigger(self):
+        self._scheduled = None
         self.__trigger__()
 
     def __await__(self) -> Generator[Any, None, bool]:
